@@ -32,6 +32,8 @@ STRICT_ENS = {
     "valid-carries-exactly-the-validated-json": "implies(result.valid, result.structure == from_json(schema, raw.strip()))",
     "invalid-has-no-structure-but-a-trace": "implies(not result.valid, result.structure is None and result.error_trace is not None)",
 }
+construct("Chaperone", "operon_ai.organelles.chaperone", {"silent": True})
+
 contract(T + "._fold_strict", "C11", params=SCHEMA, callbacks=MV, raises=["RecursionError", "ValueError"], ensures=STRICT_ENS)
 contract(T + "._fold_strict_enhanced", "C11", params=SCHEMA, callbacks=MV, raises=["RecursionError", "ValueError"],
          ensures=dict(STRICT_ENS, **{"full-confidence-only-here": "implies(result.valid, result.confidence == 1.0 and result.strategy_used == FoldingStrategy.STRICT)"}))
